@@ -342,11 +342,13 @@ def find_roots(
     manynodes = tuple(sorted(manynodes + list(knots)))
     matrixeval = eval_spline_nodes(knotvector, manynodes, degree)
     manyvalues = np.dot(np.transpose(matrixeval), ctrlvalues)
-    manyvalues = tuple(manyvalues)
+    manyvalues = list(manyvalues)
+    manynodes = list(manynodes)
+    exactroots = []  # Sampled nodes which are roots
     while 0 in manyvalues:
         index = manyvalues.index(0)
         manyvalues.pop(index)
-        manynodes.pop(index)
+        exactroots.append(manynodes.pop(index))
     # return tuple(sorted(manynodes))
 
     # Bissection algorithm
@@ -364,7 +366,7 @@ def find_roots(
             frigh.append(bval)
     nintervs = len(lefts)
     if nintervs == 0:
-        return tuple()
+        return tuple(exactroots)
     lefts = np.array(lefts, dtype="float64")
     righs = np.array(righs, dtype="float64")
     fleft = np.array(fleft, dtype="float64")
@@ -394,7 +396,7 @@ def find_roots(
                 break
         else:
             filtered_roots.append(root)
-    return tuple(sorted(filtered_roots))
+    return tuple(sorted(filtered_roots + exactroots))
 
 
 def totuple(array):
